@@ -1,8 +1,8 @@
 """C27 Objects keep their class and polymorphic queries are exact — BOUNDED stand-in (level other).
 
 The property quantifies over all inheritance hierarchies, objects and queries; the per-function contracts in reach (class refinement in `_get_from_identity_map_`: C11) carry only a
-small part of it. Here the real code runs end to end on SQLite over an enumerated family: 4 hierarchies (linear chain, diamond, custom string discriminator, custom integer
-discriminator with a gap) x one stored object per class x 12 ways of reaching an object in a LATER session (by key through every ancestor, get / select on every ancestor, through a
+small part of it. Here the real code runs end to end on SQLite over an enumerated family: 5 hierarchies (linear chain, diamond, custom string discriminator, custom integer
+discriminator with a gap) x one stored object per class x 16 ways of reaching an object in a LATER session (by key through every ancestor, get / select on every ancestor, through a
 to-one reference, through a collection, as an unloaded reference that is loaded on attribute access, select_by_sql, prefetch, query projection) : the object has the class it was created
 with; reaching it through a class it does not belong to raises ObjectNotFound / returns nothing; `E.select()`, `count`, `exists` and `isinstance(x, T)` / `not isinstance` / tuple forms
 inside queries agree with Python's isinstance on the creation classes."""
@@ -16,7 +16,7 @@ META = dict(
     level='other',
     explanation='BOUNDED: enumerated hierarchies, one object per class, every way of reaching it in a later session; polymorphic queries and isinstance tests compared with Python isinstance',
     trusted_base=['the creation class recorded by the harness is the oracle'],
-    assumptions=['4 hierarchies of at most 5 classes; SQLite'],
+    assumptions=['5 hierarchies of at most 5 classes; SQLite'],
 )
 _MODELS = {}
 
@@ -48,6 +48,14 @@ def build(h):
         class C(A): _discriminator_ = 'sea'; c = Opt(int)
         class D(C): _discriminator_ = 'dee'; d = Opt(int)
         classes = [A, B, C, D]
+    elif h == 'zero_discriminator':
+        class A(db.Entity):
+            _discriminator_ = 0                          # a falsy discriminator value for the base class
+            kind = orm.Discriminator(int)
+            name = Req(str); holders = Set('R', reverse='ref'); bags = Set('R', reverse='items')
+        class B(A): _discriminator_ = 1; b = Opt(int)
+        class C(A): _discriminator_ = 2; c = Opt(int)
+        classes = [A, B, C]
     else:
         class A(db.Entity):
             _discriminator_ = 1
@@ -75,8 +83,9 @@ def build(h):
     return M
 
 
-HIER = ('chain', 'diamond', 'str_discriminator', 'int_discriminator')
-WAYS = ('getitem_root', 'getitem_every_ancestor', 'get_every_ancestor', 'select_root', 'generator_root', 'via_reference', 'via_collection', 'unloaded_reference', 'select_by_sql',
+HIER = ('chain', 'diamond', 'str_discriminator', 'int_discriminator', 'zero_discriminator')
+WAYS = ('getitem_root', 'getitem_every_ancestor', 'get_every_ancestor', 'select_root', 'generator_root', 'via_reference', 'via_collection', 'via_collection_copy', 'via_collection_select',
+        'unloaded_reference', 'seed_then_getitem_root', 'seed_then_getitem_own_class', 'select_by_sql',
         'prefetch', 'projection', 'get_by_name')
 
 
@@ -98,11 +107,11 @@ def _rc_case(cfg, values):
     def call():
         M = build(cfg['hierarchy']); root = M.root; R = M.R
         bad = []; n = 0
-        with orm.db_session:
-            w = cfg['way']
-            for pk, cls in M.created.items():
-                ancestors = [c for c in M.classes if issubclass(cls, c)]
-                strangers = [c for c in M.classes if not issubclass(cls, c)]
+        w = cfg['way']
+        for pk, cls in M.created.items():
+            ancestors = [c for c in M.classes if issubclass(cls, c)]
+            strangers = [c for c in M.classes if not issubclass(cls, c)]
+            with orm.db_session:                                   # a fresh session per object: nothing else has been loaded when it is reached
                 got = []
                 if w == 'getitem_root': got = [root[pk]]
                 elif w == 'getitem_every_ancestor': got = [c[pk] for c in ancestors]
@@ -110,22 +119,38 @@ def _rc_case(cfg, values):
                 elif w == 'select_root': got = [o for o in root.select() if o.id == pk]
                 elif w == 'generator_root': got = list(orm.select(a for a in root if a.id == pk))
                 elif w == 'via_reference': got = [R.get(tag='holder_' + cls.__name__).ref]
-                elif w == 'via_collection': got = [o for o in R.get(tag='bag').items if o.id == pk]
+                elif w == 'via_collection': got = [o for o in R.get(tag='bag').items if o._pkval_ == pk]
+                elif w == 'via_collection_copy': got = [o for o in R.get(tag='bag').items.copy() if o._pkval_ == pk]
+                elif w == 'via_collection_select': got = [o for o in R.get(tag='bag').items.select() if o._pkval_ == pk]
                 elif w == 'unloaded_reference':
                     r = R.get(tag='holder_' + cls.__name__); o = r.ref; o.name; got = [o]
+                elif w == 'seed_then_getitem_root':
+                    r = R.get(tag='holder_' + cls.__name__); seed = r.ref; got = [root[pk], seed]     # known by key only (a seed) when it is looked up
+                elif w == 'seed_then_getitem_own_class':
+                    r = R.get(tag='holder_' + cls.__name__); seed = r.ref; got = [cls[pk], cls.get(id=pk), seed]
                 elif w == 'select_by_sql': got = list(root.select_by_sql('select * from "%s" where id = %d' % (root._table_, pk)))
-                elif w == 'prefetch': got = [r.ref for r in R.select().prefetch(R.ref) if r.ref is not None and r.ref.id == pk]
+                elif w == 'prefetch': got = [r.ref for r in R.select().prefetch(R.ref) if r.ref is not None and r.ref._pkval_ == pk]
                 elif w == 'projection': got = list(orm.select(r.ref for r in R if r.ref.id == pk))
                 elif w == 'get_by_name': got = [root.get(name='obj_' + cls.__name__)]
                 n += 1
-                if len(got) < 1 or any(type(o) is not cls for o in got) or len(set(map(id, got))) != 1:
-                    bad.append((w, pk, cls.__name__, [type(o).__name__ for o in got]))
+                types_now = [type(o) for o in got]                  # the class at the moment the object is handed out, before anything else is asked of it
+                if len(got) < 1 or any(t is not cls for t in types_now) or len(set(map(id, got))) != 1:
+                    bad.append((w, pk, cls.__name__, [t.__name__ for t in types_now]))
+            with orm.db_session:
                 # reaching the object through a class it does not belong to
                 for s in strangers:
                     try:
                         o = s[pk]; bad.append(('stranger getitem returned', s.__name__, pk, type(o).__name__))
                     except core.ObjectNotFound: pass
                     if s.get(id=pk) is not None: bad.append(('stranger get returned', s.__name__, pk))
+            with orm.db_session:
+                # ... also when the object is already in the session under its own class
+                own = cls[pk]
+                for s in strangers:
+                    try:
+                        o = s[pk]; bad.append(('stranger getitem returned a cached object', s.__name__, pk, type(o).__name__))
+                    except core.ObjectNotFound: pass
+                    if s.get(id=pk) is not None: bad.append(('stranger get returned a cached object', s.__name__, pk))
         return bad if n else ['nothing compared']
     return Case(call, {}, [], setup, teardown)
 
@@ -175,7 +200,7 @@ def _empty(cfg, i, path):
 CONTRACTS = [
     Contract('reloaded_class', ['pony.orm.core:EntityMeta._get_from_identity_map_', 'pony.orm.core:EntityMeta._parse_row_', 'pony.orm.core:EntityMeta._construct_discriminator_criteria_',
                                 'pony.orm.core:EntityMeta._find_in_cache_', 'pony.orm.core:EntityMeta._fetch_objects', 'pony.orm.core:Entity._load_'], _rc_configs, _rc_case,
-             [('object_has_its_creation_class_however_it_is_reached', _empty)], level='bounded', bound='4 hierarchies, one object per class, 12 ways of reaching it in a later session'),
+             [('object_has_its_creation_class_however_it_is_reached', _empty)], level='bounded', bound='5 hierarchies, one object per class, 16 ways of reaching it in a later session'),
     Contract('polymorphic_queries', ['pony.orm.core:EntityMeta._construct_discriminator_criteria_', 'pony.orm.sqltranslation:FuncIsinstanceMonad', 'pony.orm.sqltranslation:SQLTranslator.__init__'],
-             _pq_configs, _pq_case, [('queries_and_isinstance_agree_with_python', _empty)], level='bounded', bound='4 hierarchies; every class and every pair of classes'),
+             _pq_configs, _pq_case, [('queries_and_isinstance_agree_with_python', _empty)], level='bounded', bound='5 hierarchies; every class and every pair of classes'),
 ]
